@@ -45,6 +45,9 @@ func LoadIndex(idx index.Index, r io.Reader, opts ...Option) error {
 	o := ApplyOptions(opts...)
 
 	reader := internalio.ToByteReadSeeker(r)
+	// Read everything through reader from here on: for a non-seekable r the wrapper tracks
+	// the offset itself, and bytes consumed directly from r would not be accounted for.
+	r = reader
 	pragma, err := carv1.ReadHeader(r, o.MaxAllowedHeaderSize)
 	if err != nil {
 		return fmt.Errorf("error reading car header: %w", err)
